@@ -2,8 +2,10 @@
 use crate::ev::{Ctx, PropMeta};
 
 pub mod c01;
+pub mod c02;
 pub mod c03;
 pub mod c04;
+pub mod c10;
 pub mod c15;
 
 pub struct Monitor {
@@ -15,7 +17,9 @@ pub struct Monitor {
 pub fn all() -> Vec<Monitor> {
     vec![
         Monitor { meta: &c01::META, run: c01::run, replay: c01::replay },
+        Monitor { meta: &c02::META, run: c02::run, replay: c02::replay },
         Monitor { meta: &c03::META, run: c03::run, replay: c03::replay },
         Monitor { meta: &c04::META, run: c04::run, replay: c04::replay },
+        Monitor { meta: &c10::META, run: c10::run, replay: c10::replay },
         Monitor { meta: &c15::META, run: c15::run, replay: c15::replay }]
 }
